@@ -4,4 +4,7 @@ CONSTANTS
   DH = 400
   DV = 250
   DL = 200
+  X0 = 0
+  Y0 = 0
+  Z0 = 0
 CHECK_DEADLOCK FALSE
